@@ -300,6 +300,41 @@ func runC17(c *Ctx) {
 			r := MustPrecede(s.Starter, p.Deep(st), func(in ssa.Instruction) bool { return isOneOf(in, launches) }, nil)
 			c.PathCheck(r, r3, st.Name, FirstPos(p, s.Starter), "precedes the launch on every path", "the command can be launched without "+st.Name+" (wrong environment / working directory)")
 		}
+		// ... and precede every Commander method that may already start the command
+		// (the PTY wrapper starts it lazily in StdoutPipe/StdinPipe)
+		startish := p.Deep(Site{Name: "exec start", Call: func(cc *ssa.CallCommon) bool {
+			o := CalleeObj(cc)
+			if o == nil || o.Pkg() == nil {
+				return false
+			}
+			switch o.Pkg().Path() {
+			case "os/exec":
+				return o.Name() == "Start" || o.Name() == "Run" || o.Name() == "Output" || o.Name() == "CombinedOutput"
+			case "github.com/creack/pty":
+				return strings.HasPrefix(o.Name(), "Start")
+			}
+			return false
+		}})
+		mayStart := map[string]bool{}
+		cmdIface := p.Named("command", "Commander").Underlying().(*types.Interface)
+		for i := 0; i < cmdIface.NumMethods(); i++ {
+			for _, impl := range p.CHA(cmdIface.Method(i)) {
+				if startish.May(impl) {
+					mayStart[cmdIface.Method(i).Name()] = true
+				}
+			}
+		}
+		var starters []ssa.Instruction
+		AllInstrs(s.Starter, func(in ssa.Instruction) {
+			if call, ok := in.(*ssa.Call); ok && call.Call.IsInvoke() && mayStart[call.Call.Method.Name()] && PathOf(call.Call.Value).LastField() == s.FCommand {
+				starters = append(starters, in)
+			}
+		})
+		for _, st := range []Site{setEnv, setDir} {
+			r := MustPrecede(s.Starter, p.Deep(st), func(in ssa.Instruction) bool { return isOneOf(in, starters) }, nil)
+			c.PathCheck(r, r3, st.Name+":before-any-start", FirstPos(p, s.Starter), "precedes every Commander call that may start the command", st.Name+" comes after a Commander call that may already start the command (the PTY wrapper starts it when the output pipe is requested): is_tty processes run without the configured environment / working directory")
+		}
+		c.Check(len(starters) >= 2, r3, "start-capable-calls", FirstPos(p, s.Starter), "start-capable Commander calls identified", "could not identify the Commander calls that may start the command")
 		// the commander is created before: store to command precedes SetEnv
 		newCmd := p.Deep(StoreTo("command", s.FCommand))
 		r := MustPrecede(s.Starter, newCmd, func(in ssa.Instruction) bool { return setEnv.matchDirect(in, true) }, nil)
